@@ -8,14 +8,17 @@ from lib.core import Outcome, run_case, fnum
 
 ID = "C07"
 LEVEL = "exploration"
-RULE = ("Hypothesis generates systems and variables from {distance, distanceZ, distanceXY, angle, dihedral, gyration, rmsd, eigenvector} and "
+RULE = ("Hypothesis generates systems and variables from {distance, distanceZ, distanceXY, angle, dihedral, gyration, rmsd, eigenvector, alchLambda} and "
         "their +-1 combinations over disjoint atoms (masses, multi-atom groups, oneSiteTotalForce), force-timing convention, "
         "temperature, hideJacobian/subtractAppliedForce. Oracles: (inverse) feeding back as atomic total forces exactly what "
         "Colvars applied for a variable force f gives total force f (+ k_B T x documented Jacobian derivative); (linear) "
         "ft(a g1 + b g2) = a ft(g1) + b ft(g2) and forces on atoms outside the groups change nothing; (jacobian) ft(T)-ft(0) "
         "is independent of the atomic forces, proportional to T, equal to the closed form, removed by hideJacobian with "
         "subtractAppliedForce; (timing) under the late convention the value reported at t+1 does not depend on the geometry "
-        "of t+1. Non-trivial: f != 0, >=2 atoms with different masses in a group or force field not parallel to the gradient.")
+        "of t+1; (alch) alchemical variable driven by an extended-Lagrangian coordinate: reported total force = -dE/dlambda "
+        "returned by the engine for the same step (both conventions, with/without subtractAppliedForce and biases), the engine "
+        "receives the integrated coordinate, and the coordinate accelerates by (bias force - dE/dlambda)/mass. "
+        "Non-trivial: f != 0, >=2 atoms with different masses in a group or force field not parallel to the gradient.")
 ASSUMPTIONS = ["combinations use disjoint atoms (cross terms between overlapping components are not claimed to cancel)"]
 KB = 0.001987191
 
@@ -296,7 +299,7 @@ def view(spec):
     return {"natoms": spec["sys"]["natoms"], "variable": gen.render_colvar(spec["cv"]), "tf_mode": spec["tf"], "T": spec["T"], "k": spec["k"]}
 
 
-PARTS = {"totalforce": {"strategy": spec_tf, "check": check_tf, "examples": {"quick": 900, "thorough": 15000}, "sample": view}}
+PARTS = {"totalforce": {"strategy": spec_tf, "check": check_tf, "examples": {"quick": 4500, "thorough": 15000}, "sample": view}}
 
 
 # ------------------------------------------------------------------------------------------------------------
@@ -356,6 +359,80 @@ def check_hist(spec, ctx):
                    strata=["hist", "hist:" + ("sub" if spec["sub"] else "nosub")] + (["hist:switch_off"] if zero_after else []), case_text=case)
 
 
-PARTS["history"] = {"strategy": spec_hist, "check": check_hist, "examples": {"quick": 1200, "thorough": 20000},
+PARTS["history"] = {"strategy": spec_hist, "check": check_hist, "examples": {"quick": 6000, "thorough": 20000},
                     "sample": lambda s: s}
-REQUIRED_STRATA = {"all": ["history:hist:sub", "history:hist:nosub", "history:hist:switch_off", "totalforce:type:eigenvector"]}
+
+
+
+# --------------------------------------------------------------------------------------------
+# alchemical variable: the "atoms" are the engine's coupling parameter; Colvars drives lambda with an extended-Lagrangian
+# coordinate, the engine returns dE/dlambda.  The force that acts on the coordinate at step t is (bias force) - dE/dlambda(t).
+
+@st.composite
+def spec_alch(draw, tier):
+    T = draw(st.integers(4, 14))
+    return {"T": T, "lam0": rnd(draw(fl(0.1, 0.9)), 3), "g": [rnd(draw(fl(-30, 30)), 2) for _ in range(T + 1)],
+            "mass": draw(st.sampled_from([500.0, 2000.0, 10000.0])), "k": rnd(draw(fl(0.0, 50.0)), 2), "c": rnd(draw(fl(0.0, 1.0)), 2),
+            "sub": draw(st.booleans()), "tf": draw(st.sampled_from([1, 2])), "bias": draw(st.sampled_from(["harmonic", "harmonic", "linear", "none"])),
+            "second_bias": draw(st.booleans())}
+
+
+def check_alch(spec, ctx):
+    extra = {"extendedLagrangian": "on", "extendedMass": fmt(spec["mass"]), "extendedLangevinDamping": "0", "outputTotalForce": "on",
+             "outputAppliedForce": "on"}
+    if spec["sub"]:
+        extra["subtractAppliedForce"] = "on"
+    cfg = "colvar {\n  name lam\n  width 1.0\n%s  alchLambda {\n  }\n}\n" % "".join("  %s %s\n" % kv for kv in extra.items())
+    if spec["bias"] == "harmonic":
+        cfg += "harmonic {\n  name h\n  colvars lam\n  centers %s\n  forceConstant %s\n}\n" % (fmt(spec["c"]), fmt(spec["k"]))
+    elif spec["bias"] == "linear":
+        cfg += "linear {\n  name l\n  colvars lam\n  centers 0\n  forceConstant %s\n}\n" % fmt(spec["k"])
+    if spec["second_bias"]:
+        cfg += "linear {\n  name l2\n  colvars lam\n  centers 0\n  forceConstant 0.75\n}\n"
+    L = ["natoms 1", "tf_mode %d" % spec["tf"], "temperature 0x0p+0", "alch %s %s 0" % (fnum(spec["lam0"]), fnum(spec["g"][0])), "config <<END\n%s\nEND" % cfg]
+    for t in range(spec["T"] + 1):
+        L += ["alchd %s 0" % fnum(spec["g"][t]), "pos 0x0p+0 0x0p+0 0x0p+0", "step"]
+    case = "\n".join(L) + "\n"
+    r = run_case(case)
+    if r.crashed:
+        return Outcome(False, msg="crash %s" % r.stderr[-400:], sig="crash", case_text=case)
+    if r.of("config")[0]["rc"] != 0:
+        return Outcome(False, msg="configuration rejected: %s" % r.of("config")[0]["errs"], sig="gen_invalid", case_text=case)
+    steps = r.of("step")
+    if any(s["errbits"] for s in steps):
+        return Outcome(False, msg="step error %s" % [s["errs"] for s in steps if s["errbits"]][:1], sig="step_error", case_text=case)
+    nz = 0
+    for t in range(len(steps)):
+        cur = steps[t]["cv"][0]
+        if cur["f"][0] != 0.0:
+            nz += 1
+        # the back-end returns dE/dlambda of the configuration of this step, without Colvars' own force on the coordinate (which it
+        # never sees): the measurement is a system force of the same step under either timing convention, with or without
+        # subtractAppliedForce, and linear in what the engine returns
+        exp = -spec["g"][t]
+        ft = cur["ft"][0]
+        if abs(ft - exp) > 1e-12 * max(1.0, abs(exp)):
+            return Outcome(False, msg="alchemical variable%s, step %d: reported total force %r; the engine returned dE/dlambda = %r for this step "
+                           "(Colvars applied %r to the coordinate), so %r is expected" % (
+                               " with subtractAppliedForce" if spec["sub"] else "", steps[t]["it"], ft, spec["g"][t], cur["f"][0], exp),
+                           sig="alch_total_force", case_text=case)
+        # the applied force moves lambda: the engine receives the integrated coordinate
+        if t and abs(steps[t - 1]["alchL"] - cur["x"][0]) > 1e-12:
+            return Outcome(False, msg="step %d: the engine was sent lambda = %r but the variable reports %r" % (steps[t]["it"], steps[t - 1]["alchL"], cur["x"][0]),
+                           sig="alch_sent", case_text=case)
+    # dynamics: x(t+1) - 2 x(t) + x(t-1) = dt^2 f(t) / m  (no friction), f = bias force - dE/dlambda
+    xs = [s["cv"][0]["x"][0] for s in steps]
+    for t in range(1, len(steps) - 1):
+        f = steps[t]["cv"][0]["f"][0] - spec["g"][t]
+        acc = (xs[t + 1] - 2 * xs[t] + xs[t - 1])
+        exp = f / spec["mass"]            # dt = 1
+        if abs(acc - exp) > 1e-9 * max(abs(exp), 1e-3):
+            return Outcome(False, msg="step %d: lambda accelerates by %r, the force that acted (bias %r - dE/dlambda %r) over the mass gives %r" % (
+                steps[t]["it"], acc, steps[t]["cv"][0]["f"][0], spec["g"][t], exp), sig="alch_dynamics", case_text=case)
+    return Outcome(True, nontrivial=nz >= 2 and any(g != 0.0 for g in spec["g"]), cls=("alch", spec["bias"], "sub" if spec["sub"] else "nosub", "tf%d" % spec["tf"]),
+                   strata=["alch", "alch:" + ("sub" if spec["sub"] else "nosub"), "alch:" + spec["bias"]], case_text=case)
+
+
+PARTS["alch"] = {"strategy": spec_alch, "check": check_alch, "examples": {"quick": 2000, "thorough": 20000}, "sample": lambda s: s}
+REQUIRED_STRATA = {"all": ["history:hist:sub", "history:hist:nosub", "history:hist:switch_off", "totalforce:type:eigenvector",
+                           "alch:alch:sub", "alch:alch:nosub", "alch:alch:harmonic", "alch:alch:linear"]}
